@@ -96,7 +96,7 @@ EXPECT_PROBES = ("table_cell", "passed", "cache_hit", "cache_hit_script_changed"
                  "cache_hit_on_concurrent_original", "post_probe_fresh", "preempted_while_holding_a_lock",
                  "protein_tagged_with_foreign_source", "observer_raised_reply_captured", "weak_key_twins_both_asked",
                  "agent_rewrote_signal", "flood_past_capacity", "repeat_after_flood_fresh", "repeat_after_flood_cached",
-                 "protein_object_reused", "breaker_answered")
+                 "protein_object_reused", "breaker_answered")  # refused_without_consulting_agents fires only on trees with an input guard
 
 KNOWN = ("EXECUTE", "PERMIT", "BLOCK", "FAILURE", "DEFER")
 EXEC_PERMITS = ("EXECUTE", "PERMIT")
@@ -105,7 +105,9 @@ EXC = {"RuntimeError": RuntimeError, "ValueError": ValueError, "KeyError": KeyEr
 UNKNOWNS = ["UNKNOWN", "", "permit", "Permit", "PERMIT ", "APPROVE", "SUCCESS", "EXECUTE\n", "OK",
             "EXEC", "PERMITBLOCK", "EXECUTEPERMIT", "BLOCKED", "PERMITTED"]       # pieces / concatenations of legal verdicts
 POOL = ["deploy service", "deploy server", "deploy s", "deploy service ", "Deploy service", "", "a",
-        "calculate 2+2", "delete all logs", "list files", "päyload ✓ 漢字", "x" * 300, "list filez"]
+        "calculate 2+2", "delete all logs", "list files", "päyload ✓ 漢字", "x" * 300, "list filez",
+        # sizes around powers of two, up to far beyond anything an input-size guard would accept
+        "y" * 4096, "y" * 16384, "y" * 16385, "wipe " * 13108, "z" * 70_000]
 # "weak cache key" twins: different requests that a sloppy request identity would merge (weak checksum, truncation at
 # either end, order- or case-insensitive keys, dropped non-ASCII / digits).  The checksum pairs were found by a birthday
 # search over two prompt templates and are verified at import.
@@ -218,7 +220,7 @@ def gen(rng, tier, i):
     cfg = {"logic": weighted(rng, [(2, "AND"), (2, "OR"), (1, "MAJORITY"), (1, "UNANIMOUS"), (2, "EXECUTOR_PRIORITY"),
                                    (2, "ASSESSOR_PRIORITY")]),
            "cache": rng.random() < 0.85,
-           "ttl": rng.choice([1.0, 60.0, 300.0]),
+           "ttl": rng.choice([1.0, 60.0, 300.0, 1.0, 60.0, 300.0, 0, 0.0]),
            "breaker": weighted(rng, [(6.5, "off"), (2.5, "huge"), (1.0, "small")]), "thr": rng.choice([1, 2, 3]),
            "agents": "real" if real else "fake",
            "budget": rng.choice([10, 20, 30, 40, 1000]) if real else 1000}
@@ -713,6 +715,11 @@ class World:
         if cfg["breaker"] == "small" and snap["action"] == "CIRCUIT_OPEN" and snap["blocked"] and snap["token"] is None:
             # a real (small-threshold) breaker answered: blocked, no token - nothing in this property forbids that (C08's)
             k.probe("breaker_answered")
+            return
+        if snap["blocked"] and snap["token"] is None and not rec["flagged"]:
+            # a refusal that does not claim to come from the cache (input guard, rate limit, ...): blocked replies are
+            # always allowed, and "identical to the original" only speaks about cached replies
+            k.probe("refused_without_consulting_agents")
             return
         k.probe("cache_hit")
         tok = snap["token"]
